@@ -391,6 +391,10 @@ func (hp *HTTPProxy) pacProxy(r *http.Request) (*url.URL, error) {
 	}
 
 	proxyURL := p.URL()
+	if proxyURL == nil {
+		// DIRECT
+		return nil, nil
+	}
 
 	// do not attach proxy credentials if we are using Kerberos
 	// to auth upstream proxy and clear existing auth data
